@@ -26,6 +26,8 @@ pub mod interpreter;
 pub(crate) mod reader;
 mod state;
 mod types;
+#[cfg(filecoin_project_builtin_actors_verif)]
+pub mod verif_hook;
 
 pub use state::*;
 
